@@ -89,7 +89,7 @@ mod harness {
     /// YAML 1.1 plain-scalar hazards: a key that an independent YAML parser would read as bool / null / number / date / document marker must NOT be emitted bare
     /// quick subset: one mixed-case keyword of each family, a number, a date, the empty key
     #[kani::proof]
-    #[kani::unwind(12)]
+    #[kani::unwind(18)]
     fn h_yaml_bare_safe_core() {
         const HAZARD: [&str; 5] = ["Yes", "NULL", "-12", "", "2001-01-01"];
         let mut i = 0; while i < 5 { assert!(!bare_safe(HAZARD[i]), "obligation: YAML 1.1 keyword / number / date / marker look-alikes are quoted (any letter case)"); i += 1; }
